@@ -9,7 +9,10 @@ import RbV.Model.Bom
 
 `c08 <matcher> <pattern hex> <t1>/<t2>/… => <l1>/<l2>/…`   one matcher object applied to the texts in turn.
 Expected: every `lᵢ` = `occurrences p tᵢ`.  For the two bit-parallel matchers a pattern longer than 64
-must be refused (the observation is `PANIC …`). -/
+must be refused (the observation is `PANIC …`).
+For `bom` the harness appends `|<table>` (the transition table of the real `BOM`, states `;`-separated, entries
+`symbol:target` ascending); it is compared with the table built by the Lean model of `BOM::new`
+(tags `bom-table-same` / `drift-bom-table`; the property does not fix the table, so a difference is no violation). -/
 namespace RbV.Drv.C08
 open RbV.Codec
 
@@ -17,7 +20,17 @@ def bitParallel (m : String) : Bool := m = "shiftand" || m = "bndm"
 
 def knownMatcher (m : String) : Bool := m ∈ ["shiftand", "bndm", "bom", "horspool", "kmp"]
 
-def verdict (toks : List String) (out : String) : String :=
+/-- the model's table in the harness' rendering -/
+def showBomTable (T : Bom.Table) : String :=
+  ";".intercalate (T.map fun l =>
+    if l.isEmpty then "-" else
+      ",".intercalate ((l.mergeSort (fun x y => x.1 ≤ y.1)).map fun e => toString e.1 ++ ":" ++ toString e.2))
+
+def verdict (toks : List String) (out0 : String) : String :=
+  -- `bom` observations carry the real oracle table after a `|`
+  let parts := if out0.startsWith "PANIC" || out0.startsWith "HANG" then [out0] else splitOnChar out0 '|'
+  let out := parts.headD out0
+  let realTable : Option String := (parts.drop 1).head?
   match toks with
   | [m, ph, ts] =>
     if !knownMatcher m then "bad-op matcher" else
@@ -36,7 +49,8 @@ def verdict (toks : List String) (out : String) : String :=
           else if m = "horspool" then texts.map (Horspool.findAll p) == exp
           else if m = "kmp" then texts.map (Kmp.findAll p) == exp
           else if m = "bndm" then texts.map (Bndm.findAll p) == exp.map some
-          else if m = "bom" then texts.map (Bom.findAll p) == exp else true
+          else if m = "bom" then texts.map (Bom.findAll p) == exp && texts.map (Bom.findAllS p) == exp.map some
+          else true
         if !mirrorOk then "bad-op mirror-model-disagrees-with-oracle" else
         if exp = outs then
           let nt := p.length ≥ 2 && exp.any (fun l => !l.isEmpty)
@@ -46,7 +60,12 @@ def verdict (toks : List String) (out : String) : String :=
             ++ " mirror"
             ++ (if m = "bom" then
                   (if Bom.completeB (Bom.build p) p && Bom.monotoneB (Bom.build p) p.reverse
-                   then " bom-table-ok" else " bom-table-cond-FAILED") else "")
+                      && Bom.buildS p == some (Bom.build p)
+                   then " bom-table-ok" else " bom-table-cond-FAILED")
+                  ++ (match realTable with
+                      | some rt => if rt = showBomTable (Bom.build p) then " bom-table-same" else " drift-bom-table"
+                      | none => "")
+                else "")
           "ok" ++ tags
         else "diff " ++ "/".intercalate (exp.map showNatList)
       | none => if out.startsWith "PANIC" || out.startsWith "HANG" then "reject " ++ out else "bad-op output"
